@@ -283,8 +283,16 @@ def run(chk, repo, tier):
     w = World(repo)
     it0 = Interp(w)
     m = repo.module(PC)
-    q = it0.eval_global(m, "q")
-    consts_ok = q == Q and all(it0.eval_global(m, f"POW_2_{k}") == 1 << k for k in (381, 382, 383))
+    def const(name):
+        """a module constant the codec uses: from the codec module's namespace, else from py_ecc.bls.constants"""
+        for mm in (m, repo.module("py_ecc.bls.constants")):
+            if name in mm.bindings:
+                return it0.eval_global(mm, name)
+        return None
+    q = const("q")
+    pows = {k: const(f"POW_2_{k}") for k in (381, 382, 383)}
+    # the named powers of two that exist must be the powers of two (a codec that spells them differently is decided by the tables)
+    consts_ok = q == Q and all(v is None or v == 1 << k for k, v in pows.items())
     chk.ob("C11.R1", PC, "q is the BLS12-381 field prime, POW_2_k = 2^k, q < 2^381", consts_ok and Q < T381, "", m.relpath)
     if not consts_ok:
         return
@@ -463,7 +471,7 @@ def decode_g2(chk, repo, w, x0_on, Z2, b2):
     sq = repo.func(f"{PC}.modular_squareroot_in_FQ2")
     m = repo.module(PC)
     onc = repo.resolve_binding(m, "is_on_curve")
-    if not onc or onc[0] != "func" or onc[1].qualname != f"{OC}.is_on_curve":
+    if not repo.is_func(onc, f"{OC}.is_on_curve"):
         raise AnalysisError("point_compression.is_on_curve does not resolve to the optimized BLS12-381 curve module")
     cells = 0
     for c in (0, 1):
@@ -784,7 +792,7 @@ def encoders(chk, repo, w):
     nrm = repo.resolve_binding(m, "normalize")
     onc = repo.resolve_binding(m, "is_on_curve")
     for nm, r in (("is_inf", inf), ("normalize", nrm), ("is_on_curve", onc)):
-        if not r or r[0] != "func" or r[1].qualname != f"{OC}.{nm}":
+        if not repo.is_func(r, f"{OC}.{nm}"):
             raise AnalysisError(f"point_compression.{nm} does not resolve to the optimized BLS12-381 curve module")
     pt = var("pt", "point")
     # ---- G1
@@ -888,11 +896,12 @@ def _fact(p, op):
 # byte helpers
 # ---------------------------------------------------------------------------
 def byte_helpers(chk, repo, w, rule="C11.R3"):
-    m = repo.module(G2P)
-    for nm in ("compress_G1", "compress_G2", "decompress_G1", "decompress_G2"):
+    for nm, user in (("compress_G1", "G1_to_pubkey"), ("compress_G2", "G2_to_signature"), ("decompress_G1", "pubkey_to_G1"),
+                     ("decompress_G2", "signature_to_G2")):
+        m = repo.func(f"{G2P}.{user}").module          # the module that defines the byte helper (it may be re-exported by G2P)
         r = repo.resolve_binding(m, nm)
-        if not r or r[0] != "func" or r[1].qualname != f"{PC}.{nm}":
-            raise AnalysisError(f"g2_primitives.{nm} does not resolve to point_compression")
+        if not repo.is_func(r, f"{PC}.{nm}"):
+            raise AnalysisError(f"{m.name}.{nm} (used by {user}) does not resolve to point_compression")
     def cg2(it, fn, args, kwargs, node):
         cz = Term("compress_G2", (_key(args[0]),), "any")
         return (Term("item", (cz, 0), "int"), Term("item", (cz, 1), "int"))
